@@ -17,6 +17,7 @@ THEOREMS = {
         "Dawgs.C01.Props.ofCyWithHop_sound", "Dawgs.C01.Props.tr_sound_S3b", "Dawgs.C01.Props.tr_total_S3b",
         "Dawgs.C01.Props.ofCyOrder_sound", "Dawgs.C01.Props.keyOK_of_check", "Dawgs.C01.Props.tr8_some", "Dawgs.C01.Props.tr_sound_S1o", "Dawgs.C01.Props.tr_total_S1o",
         "Dawgs.C01.Props.ofCyDistinct_sound", "Dawgs.C01.Props.keysScalar_of_check", "Dawgs.C01.Props.tr9_some", "Dawgs.C01.Props.tr_sound_S1d", "Dawgs.C01.Props.tr_total_S1d",
+        "Dawgs.C01.Props.ofCyCross_sound", "Dawgs.C01.Props.crossScalar_of_check", "Dawgs.C01.Props.tr10_some", "Dawgs.C01.Props.tr_sound_S2x", "Dawgs.C01.Props.tr_noerr_S2x",
     ],
 }
 
@@ -199,8 +200,9 @@ FRAGMENT_PROVED = ("stage S1 (all graphs with unique node ids / injective kind m
                    "null; all queries; BOTH join orders of the emitted statement; the frame PRUNED to the bindings that are read (what the optimised translator emits) or complete): "
                    "MATCH (a[:K...])-[r[:T1|T2...]]->(b[:K...]) [WHERE c1 AND ... AND cn] RETURN items, one directed fixed hop, no ORDER BY / SKIP / LIMIT / DISTINCT, a, r, b pairwise "
                    "distinct names, any non-empty list of items over them; every conjunct ci is a predicate p of the S1 language over exactly ONE of a, r, b (for r a kind atom r:T means "
-                   "type(r) = T); conjuncts that read two variables (a.x = b.y, a.x = 1 OR b.y = 2) are outside; items ::= x | id(x) | x.k [AS alias] for x in {a, r, b}; "
+                   "type(r) = T); conjuncts that read two variables are outside THIS stage (a.x = b.y: stage S2x below; a.x = 1 OR b.y = 2: no stage); items ::= x | id(x) | x.k [AS alias] for x in {a, r, b}; "
                    "the rows agree as a BAG (List.Perm), not as a list. "
+                   "stage S2x (graphs as S2b in which every property key compared by a two-variable conjunct holds a string / number / boolean or is absent on every node — CrossScalar, decidable, checked on every generated graph; BOTH join orders; pruned or complete frame; rows agree as a BAG): an S2b query whose WHERE has, next to any number of single-variable conjuncts, AT LEAST ONE conjunct x.k = y.k' or x.k <> y.k' with {x, y} = {a, b}. The statement compares the stored values AS JSONB in the frame's WHERE: `((n0.properties -> 'k') = (n1.properties -> 'k2'))`; the conjuncts over b are then NOT in the join condition of n1 but in the same parenthesised WHERE term (the translator attaches both to the right node, and a term that mentions n0 cannot sit in the join condition of n1); that term stands before the relationship's constraints when n0 is joined first and after them when n1 is; inside it the group of b-conjuncts and the group of two-variable conjuncts are ordered by which group's LAST member comes later in the source (Query.bFirst), each group in source order. jsonb = / <> and openCypher = / <> agree on scalars (1 = 1.0, a string never equals a number, a missing property gives null in both) and not on arrays / objects — outside the hypothesis NOTHING is claimed. Conjuncts comparing a or b with r, two properties of the same variable, ordering comparisons between two properties and two-variable disjunctions are outside. "
                    "stage S2n (same graphs, join orders and pruning as S2b): MATCH (a[:K...])-[r[:T|...]]->(b[:K...]) [WHERE single-variable conjuncts] RETURN count(x) [AS c], x one "
                    "of a, r, b — one row, the number of matches. "
                    "stage S2L (same graphs, join orders and pruning as S2b; the LIMIT written on the statement only, or — limit pushdown — on the statement AND on the hop frame): "
@@ -243,9 +245,9 @@ SPEC = {
     "fallback_level": "other",
     "lean_modules": ["Dawgs.Props.C01"],
     "theorems_by_module": THEOREMS,
-    "gate_modules": ["Dawgs.Model.Graph", "Dawgs.Model.Cypher", "Dawgs.Model.CyEval", "Dawgs.Model.SqlVal", "Dawgs.Model.SqlEval", "Dawgs.Model.C01", "Dawgs.Model.C01S2", "Dawgs.Model.C01Chain", "Dawgs.Model.C01Count", "Dawgs.Model.C01Limit", "Dawgs.Model.C01With", "Dawgs.Model.C01Order", "Dawgs.Model.C01Distinct", "Dawgs.Model.C02",
+    "gate_modules": ["Dawgs.Model.Graph", "Dawgs.Model.Cypher", "Dawgs.Model.CyEval", "Dawgs.Model.SqlVal", "Dawgs.Model.SqlEval", "Dawgs.Model.C01", "Dawgs.Model.C01S2", "Dawgs.Model.C01Chain", "Dawgs.Model.C01Count", "Dawgs.Model.C01Limit", "Dawgs.Model.C01With", "Dawgs.Model.C01Order", "Dawgs.Model.C01Distinct", "Dawgs.Model.C01Cross", "Dawgs.Model.C02",
                      "Dawgs.Proofs.C01", "Dawgs.Proofs.C01Sql", "Dawgs.Proofs.C01Pred", "Dawgs.Proofs.C01Query", "Dawgs.Proofs.C01Cy", "Dawgs.Proofs.C01Sound",
-                     "Dawgs.Proofs.C01Frag", "Dawgs.Proofs.C01At", "Dawgs.Proofs.C01S2Sql", "Dawgs.Proofs.C01S2Cy", "Dawgs.Proofs.C01S2Sound", "Dawgs.Proofs.C01ChainSql", "Dawgs.Proofs.C01ChainCy", "Dawgs.Proofs.C01ChainSound", "Dawgs.Proofs.C02", "Dawgs.Proofs.C01Count", "Dawgs.Proofs.C01CountHop", "Dawgs.Proofs.C01Limit", "Dawgs.Proofs.C01With", "Dawgs.Proofs.C01WithHop", "Dawgs.Proofs.C01Order", "Dawgs.Proofs.C01Distinct", "Dawgs.Props.C01"],
+                     "Dawgs.Proofs.C01Frag", "Dawgs.Proofs.C01At", "Dawgs.Proofs.C01S2Sql", "Dawgs.Proofs.C01S2Cy", "Dawgs.Proofs.C01S2Sound", "Dawgs.Proofs.C01ChainSql", "Dawgs.Proofs.C01ChainCy", "Dawgs.Proofs.C01ChainSound", "Dawgs.Proofs.C02", "Dawgs.Proofs.C01Count", "Dawgs.Proofs.C01CountHop", "Dawgs.Proofs.C01Limit", "Dawgs.Proofs.C01With", "Dawgs.Proofs.C01WithHop", "Dawgs.Proofs.C01Order", "Dawgs.Proofs.C01Distinct", "Dawgs.Proofs.C01Cross", "Dawgs.Props.C01"],
     "suites": [{"name": "c01tie", "model_suite": "c01tie", "model_input": model_input, "impl_view": impl_view, "model_view": model_view,
                 "judge": tie_judge, "keep_prefix": 1, "thorough_seeds": 1},
                {"name": "c01", "model_suite": "c01sem", "model_input": model_input, "impl_view": impl_view, "model_view": model_view,
@@ -255,12 +257,12 @@ SPEC = {
     "extra_coverage": extra_coverage,
     "panic_is_violation": False,
     "rule": "tie 1 (suite c01tie): structured random queries of the PROVED fragment S1 (kinds x predicates x items x order/skip/limit) and S2b (kinds of a / r / b x 0-4 WHERE conjuncts, "
-            "each an S1 predicate of depth <= 2 over one of a, r, b x 1-4 items over any of a, r, b) S2c (chains of 2-3 hops x kinds x items over all variables, without WHERE and — family s2cw — with 1-4 WHERE conjuncts, each an S1 predicate of depth <= 2 over one node or relationship variable) S3a (node MATCH x optional predicate x 1-4 WITH items (own name / renamed copy / property value) x 1-4 RETURN items over the exported names; family s3a), S3b (node MATCH x predicate x WITH n x hop kinds x items over n, r, b; family s3b), S1o (S1 query x ORDER BY n.k over name / a / zz / f x direction spelling x SKIP / LIMIT; family s1o; graphs outside keyOKb are evaluated and counted only, a reference refusal `nondeterministic-...-inside-ties` is not compared), S1d (S1 query without ORDER BY x RETURN DISTINCT over 1-3 items drawn from n, id(n), n.name, n.a, n.zz, n.f; family s1d; graphs on which a returned key holds a non-scalar are evaluated and counted only) S1c (count(n) over a node pattern x kinds x optional predicate x alias), S2n (count(x) over a hop x kinds x 0-3 conjuncts x alias) and S2L (an S2b query + LIMIT k, k in {0,1,2,3,5,50}, no ORDER BY: the real statement must be the model statement WITH the LIMIT pushed into the hop frame; prediction checked against the base query: sub-bag of exactly min(k, n) rows; splitmix64(VERIF_SEED)) are translated by the REAL "
+            "each an S1 predicate of depth <= 2 over one of a, r, b x 1-4 items over any of a, r, b) S2c (chains of 2-3 hops x kinds x items over all variables, without WHERE and — family s2cw — with 1-4 WHERE conjuncts, each an S1 predicate of depth <= 2 over one node or relationship variable) S3a (node MATCH x optional predicate x 1-4 WITH items (own name / renamed copy / property value) x 1-4 RETURN items over the exported names; family s3a), S3b (node MATCH x predicate x WITH n x hop kinds x items over n, r, b; family s3b), S1o (S1 query x ORDER BY n.k over name / a / zz / f x direction spelling x SKIP / LIMIT; family s1o; graphs outside keyOKb are evaluated and counted only, a reference refusal `nondeterministic-...-inside-ties` is not compared), S1d (S1 query without ORDER BY x RETURN DISTINCT over 1-3 items drawn from n, id(n), n.name, n.a, n.zz, n.f; family s1d; graphs on which a returned key holds a non-scalar are evaluated and counted only), S2x (an S2b query whose 1-4 WHERE conjuncts include at least one a.k (= | <>) b.k' or b.k (= | <>) a.k' over name / a / zz / f, mixed with single-variable conjuncts in any order; family s2x; graphs outside CrossScalar are evaluated and counted only) S1c (count(n) over a node pattern x kinds x optional predicate x alias), S2n (count(x) over a hop x kinds x 0-3 conjuncts x alias) and S2L (an S2b query + LIMIT k, k in {0,1,2,3,5,50}, no ORDER BY: the real statement must be the model statement WITH the LIMIT pushed into the hop frame; prediction checked against the base query: sub-bag of exactly min(k, n) rows; splitmix64(VERIF_SEED)) are translated by the REAL "
             "translator; the reflection S-expression of Result.Statement must be EQUAL to the model translator's statement (and carry no parameters) — for a hop the model has TWO "
             "statements, one per join order (`S2.Query.trWith km false / true`): which one the translator picks is a selectivity heuristic over its Go syntax tree that scores only "
             "pointer-typed nodes, which the reflection rendering does not determine, so the direction is NOT modelled; the theorems hold for both and the tie accepts either (the "
             "record counts how often the model's own approximation `flipOpt` names the order taken) — and on every generated graph satisfying "
-            "the stage's hypothesis (GraphOK for S1 / S1c / S3a, GraphOK and keyOKb for S1o, GraphOK and scalarKeyB for every returned key for S1d, GraphOK2 for S2b / S2c / S2n / S2L / S3b) the two evaluators must agree (S2L: the statement's rows must be a sub-bag of min(k, n) rows of the base query's rows). tie 2 (suite c01, SEARCH not proof): the REFERENCE reading of a query does not inherit what the DAWGS frontend listener makes of the text where that can be avoided: the direction of every ORDER BY item is read from the TEXT (harness/sortdir.go: the generated parser alone, an oC_SortItem is descending iff a keyword child spells DESC / DESCENDING in any letter case) and overrides SortItem.Ascending in the S-expression given to Cy.eval, and so are the bounds of every variable-length relationship pattern (rangesFromText: `*` / `*n` = exactly n / `*n..` / `*..m` / `*n..m` from the oC_RangeLiteral of the generated parser's tree), while the translator under test gets the frontend's model unchanged; generators spell the direction in every grammar form (asc / ASCENDING / desc / DESCENDING / mixed case / default). Pattern property maps given as a PARAMETER (`(a $p)`, `-[r $p]->`): the op line carries the parameter values (p=<hex JSON>), the translator gets them, the reference reads the literal map they stand for, and Sql.eval evaluates `properties @> @pi0::jsonb` with the jsonb value of Result.Parameters (jsonb containment modelled for an object on the right whose values are scalars; other operand forms are `unmodelled`). FOCUSED FAMILIES (harness/focused.go: every spelling of the sort direction in RETURN and WITH, single and mixed keys, with SKIP / LIMIT (family sort-keyword); a parameter property map at every element position of a hop, a chain and several MATCH clauses, next to a second parameter map or a literal map (family param-map: every OTHER element must stay unconstrained); an expansion of exact length in each spelling (`*n`, `*n..n`) next to a proper range, alone, with either endpoint bound by an earlier clause, followed by a fixed hop into a bound or fresh node, as named path / relationship list (family exact-range); variable-length step + >= 2 fixed hops with every subset of the suffix nodes already bound, "
+            "the stage's hypothesis (GraphOK for S1 / S1c / S3a, GraphOK and keyOKb for S1o, GraphOK and scalarKeyB for every returned key for S1d, GraphOK2 and scalarKeyB for every compared key for S2x, GraphOK2 for S2b / S2c / S2n / S2L / S3b) the two evaluators must agree (S2L: the statement's rows must be a sub-bag of min(k, n) rows of the base query's rows). tie 2 (suite c01, SEARCH not proof): the REFERENCE reading of a query does not inherit what the DAWGS frontend listener makes of the text where that can be avoided: the direction of every ORDER BY item is read from the TEXT (harness/sortdir.go: the generated parser alone, an oC_SortItem is descending iff a keyword child spells DESC / DESCENDING in any letter case) and overrides SortItem.Ascending in the S-expression given to Cy.eval, and so are the bounds of every variable-length relationship pattern (rangesFromText: `*` / `*n` = exactly n / `*n..` / `*..m` / `*n..m` from the oC_RangeLiteral of the generated parser's tree), while the translator under test gets the frontend's model unchanged; generators spell the direction in every grammar form (asc / ASCENDING / desc / DESCENDING / mixed case / default). Pattern property maps given as a PARAMETER (`(a $p)`, `-[r $p]->`): the op line carries the parameter values (p=<hex JSON>), the translator gets them, the reference reads the literal map they stand for, and Sql.eval evaluates `properties @> @pi0::jsonb` with the jsonb value of Result.Parameters (jsonb containment modelled for an object on the right whose values are scalars; other operand forms are `unmodelled`). FOCUSED FAMILIES (harness/focused.go: every spelling of the sort direction in RETURN and WITH, single and mixed keys, with SKIP / LIMIT (family sort-keyword); a parameter property map at every element position of a hop, a chain and several MATCH clauses, next to a second parameter map or a literal map (family param-map: every OTHER element must stay unconstrained); an expansion of exact length in each spelling (`*n`, `*n..n`) next to a proper range, alone, with either endpoint bound by an earlier clause, followed by a fixed hop into a bound or fresh node, as named path / relationship list (family exact-range); variable-length step + >= 2 fixed hops with every subset of the suffix nodes already bound, "
             "aggregate-only RETURN incl. collect / size(collect()) with LIMIT and no ORDER BY — one output row, so the LIMIT is deterministic —, aggregate traversal counts, collect membership; a NAMED PATH bound by a MATCH whose own WHERE holds a pattern predicate, over patterns the optimiser reverses, the path / "
             "nodes(p) / relationships(p) / length(p) observed directly and through WITH (path VALUES are compared as ordered node and relationship lists; a result that is the Cypher "
             "result with every path reversed is the symptom class `path-in-reverse-order`, keyed by the enabling query shape); string predicates and equalities whose literal contains "
@@ -288,18 +290,19 @@ SPEC = {
                      "a parameter property map is shown to the reference as the literal map of the supplied parameter value (harness/sortdir.go refSexpP); jsonb containment `@>` is modelled only for an object "
                      "right operand with scalar values (SqlVal.lean jsonContainsFlat, from 8.14.3), the JSON text of a jsonb parameter is read by Driver/C01.lean JsonText",
                      "the comparison of client-visible values (RVal: jsonb scalars decoded, composites as graph entities) in Driver/C01.lean"],
-    "assumptions": ["KeysScalar keys (stage S1d): every property key the RETURN DISTINCT reads holds a string / number / boolean or is absent, on every node; decidable (scalarKeyB per key), evaluated on every generated graph; outside it jsonb equality and openCypher equivalence of the returned values are not claimed to coincide",
+    "assumptions": ["CrossScalar (stage S2x): every property key compared by a two-variable conjunct holds a string / number / boolean or is absent, on every node; decidable (scalarKeyB per key), evaluated on every generated graph; outside it jsonb = / <> and openCypher = / <> of the compared values are not claimed to coincide",
+                    "KeysScalar keys (stage S1d): every property key the RETURN DISTINCT reads holds a string / number / boolean or is absent, on every node; decidable (scalarKeyB per key), evaluated on every generated graph; outside it jsonb equality and openCypher equivalence of the returned values are not claimed to coincide",
                     "KeyOK k (stage S1o): every value of the sort key k in the graph is a string / number / boolean and no boolean value meets a number value; decidable (keyOKb), evaluated on every generated graph; outside it the jsonb order of the statement and openCypher's order differ (known deviation)",
                     "GraphOK (theorems): node ids unique, kind map injective, no property stored as JSON null; decidable (graphOKb), evaluated on every generated graph, "
                     "graphs outside it are still evaluated and counted",
                     "GraphOK2 (stage S2b theorems): GraphOK + relationship ids unique + every relationship kind present in the kind map + no relationship property stored as JSON null; decidable (graphOK2b), evaluated on every generated graph",
-                    "proof only on stages S1, S1o, S1d, S1c, S2b, S2c, S2n, S2L, S3a and S3b; every other construct is search on small graphs (bounded evaluation, NOT proof)"],
+                    "proof only on stages S1, S1o, S1d, S1c, S2b, S2x, S2c, S2n, S2L, S3a and S3b; every other construct is search on small graphs (bounded evaluation, NOT proof)"],
 }
 
 MANIFEST = {
     "category": "translation_validation",
-    "technique": "Lean semantics for both languages (Cy.eval, Sql.eval); model translator tr9F proved sound on stages S1, S1c (count over a node pattern), S2b (one directed hop with WHERE), S2c (chains of 2-3 directed hops), S2n (count over a hop) S2L (hop with LIMIT and no ORDER BY, stated against the base query) , S3a (node MATCH - WITH - RETURN with plain items) , S3b (a hop from the carried node after the WITH) , S1o (ORDER BY on a property, under the hypothesis KeyOK that states where jsonb order = openCypher order) and S1d (RETURN DISTINCT, under the hypothesis KeysScalar that states where jsonb equality = openCypher equivalence) for all graphs, all queries and both join orders, tied to the real translator by exact "
-                 "AST equality on generated S1 / S1o / S1d / S1c / S2b / S2c / S2n / S2L / S3a / S3b queries (a tie mismatch whose real statement does not pass C03's verified binder is reported as such and keyed by the query shape); outside them: evaluation of the REAL emitted statement against the source query on generated small graphs (search)",
+    "technique": "Lean semantics for both languages (Cy.eval, Sql.eval); model translator tr10F proved sound on stages S1, S1c (count over a node pattern), S2b (one directed hop with WHERE), S2c (chains of 2-3 directed hops), S2n (count over a hop) S2L (hop with LIMIT and no ORDER BY, stated against the base query) , S3a (node MATCH - WITH - RETURN with plain items) , S3b (a hop from the carried node after the WITH) , S1o (ORDER BY on a property, under the hypothesis KeyOK that states where jsonb order = openCypher order), S1d (RETURN DISTINCT, under the hypothesis KeysScalar that states where jsonb equality = openCypher equivalence) and S2x (a hop whose WHERE compares a property of a with a property of b, under the hypothesis CrossScalar) for all graphs, all queries and both join orders, tied to the real translator by exact "
+                 "AST equality on generated S1 / S1o / S1d / S1c / S2b / S2x / S2c / S2n / S2L / S3a / S3b queries (a tie mismatch whose real statement does not pass C03's verified binder is reported as such and keyed by the query shape); outside them: evaluation of the REAL emitted statement against the source query on generated small graphs (search)",
     "text": "PROVED (Props/C01.lean, axioms propext/Classical.choice/Quot.sound only): tr_sound_S1 — for every graph with unique node ids, injective kind map and no stored JSON null, "
             "every parsed query q and statement (st, ps) with tr km q = some (st, ps): if Sql.eval (encode km g) st ps yields a table then Cy.eval g q yields a result and both show the "
             "client the same rows in the same order; tr_no_runtime_error — that evaluation never ends in an SQL run-time / type / name error (only the model's own `unmodelled` for `->>` of "
@@ -326,11 +329,11 @@ MANIFEST = {
             "the client rows of t are a sub-bag of the rows of r (SubBag xs ys := exists rest, (xs ++ rest) ~ ys), t has exactly min(k, |r|) rows, and the rows of t are the first k of "
             "hopM g base flip mapped to client rows — hopM (Proofs/C01S2Sound.lean) is the frame's scan order for the join order, a permutation of the base matches that does not depend on pruning or on the pushdown; "
             "tr_noerr_S2L (never an SQL run-time error); tr_sound_S2L_forced (when Cy.eval of the LIMIT query itself is defined, bag agreement with it). Proofs/C01S2Sql.lean hop_frame_lim / "
-            "eval_cteStmt_lim evaluate the frame and the statement with their LIMIT literals; Proofs/C01Limit.lean cy_side2_lim, s2l_sound. Stage S3a (one WITH, plain items; tr7F = S3a where the query has that reading, else tr6F; tr7_some; ofCyWith_sound): tr_sound_S3a — for every GraphOK graph and every query of the stage: if the nested statement yields a table then Cy.eval yields a result and the client rows are EQUAL as lists (Agree); tr_total_S3a (the reference result exists, never an SQL run-time error). Proof (Proofs/C01With.lean): both sides are reduced to the stage-S1 query `s1Of q` whose RETURN items are the S1 items the RETURN items stand for (asS1: an entity operation on an exported node name is that operation on the matched variable, a value name x exported as n.k AS x is n.k) — SQL: frame_eval for s1, evalProj_witems for the hand-over frame, eval_ritem over its columns (colVals_idx: distinct column names; the distinctness of the generated names n0 / n<j> / i<j> is CHECKED by S3.Query.wf, not proved), evalQuery_cte1 for the nested frame; Cypher: evalProjection_plain twice (the part after a WITH sees the exported names only), eval_ritemC via lookup_zip_idx; then rows_agree of S1. Stage S3b (a MATCH after the WITH; ofCyWithHop_sound; third branch of tr7_some): tr_sound_S3b / tr_total_S3b — for every GraphOK2 graph and every query of the stage the rows are EQUAL as lists. Proof (Proofs/C01WithHop.lean): SQL — handover_eval for s0, frameW0 (the step frame Ch.stepFrame 0 over the one-column frame, via chain_from / joinOnE_ben / stepKinds_ben of the chain stage, no guard because the MATCH has no earlier relationship), final_select; Cypher — evalParts_with, clause_from_bound (matchPart with the start node already bound, then matchSteps_chain from the zero-hop chain [n]), eval_itemCCh over the bindings; both enumerate, node by node, the extensions ext of the chain stage, so the row lists coincide (itemCh_toR for the values). Stage S1o (ORDER BY n.k; tr8F = S1o where the query has that reading, else tr7F; tr8_some; ofCyOrder_sound; keyOK_of_check): tr_sound_S1o — for every GraphOK graph with KeyOK k g.nodes and every query of the stage: if the statement yields a table and Cy.eval (Quirks.none) answers, the client rows are EQUAL as lists; tr_total_S1o — never an SQL run-time / type error, and Cy.eval refuses only with nondeterministic-skip/limit-inside-ties. Proof (Proofs/C01Order.lean): sortKeysLe_prop — on scalar key values that do not pair a boolean with a number openCypher's sort-key comparison IS the jsonb comparison of the statement (16 value-kind cases); both sides are then the SAME stable sort (sortBy (propLe k asc)) of the kept nodes (sortBy_map_mem), SQL: orderKeys_prop / keysComparable_props / cutRows, Cypher: keyRows_prop / cutKeyed_ok. The deviation itself (a boolean meeting a number, arrays, objects) stays a known finding. Stage S1d (RETURN DISTINCT; tr9F = S1d where the query has that reading, else tr8F; tr9_some; ofCyDistinct_sound; keysScalar_of_check): tr_sound_S1d — for every GraphOK graph with KeysScalar and every query of the stage: if the statement yields a table and Cy.eval answers, the client rows are EQUAL as lists; tr_total_S1d — never an SQL run-time / type error and Cy.eval always answers. Proof (Proofs/C01Distinct.lean): Sql.dedupRows and Cy.dedupBy are the same scan dedupG (definitional); vSame_item — on the values of one item for two nodes SQL's `is not distinct from` (vSame: node composites compare by id / kind ids / properties, the ids being unique; jsonb scalars by jsonCmp) and openCypher's equivalence (cEquiv) give the same Boolean (vSame_prop: 16 value-kind cases incl. missing = missing; jsonCmp_refl for the composite); dedupG_map transports the scan through the row construction on both sides, so both keep the rows of the SAME nodes distinctNodes; then rows_agree of S1. FRAGMENT PROVED = " + FRAGMENT_PROVED + ". NOT PROVED: C01_full (the statement for a total "
+            "eval_cteStmt_lim evaluate the frame and the statement with their LIMIT literals; Proofs/C01Limit.lean cy_side2_lim, s2l_sound. Stage S3a (one WITH, plain items; tr7F = S3a where the query has that reading, else tr6F; tr7_some; ofCyWith_sound): tr_sound_S3a — for every GraphOK graph and every query of the stage: if the nested statement yields a table then Cy.eval yields a result and the client rows are EQUAL as lists (Agree); tr_total_S3a (the reference result exists, never an SQL run-time error). Proof (Proofs/C01With.lean): both sides are reduced to the stage-S1 query `s1Of q` whose RETURN items are the S1 items the RETURN items stand for (asS1: an entity operation on an exported node name is that operation on the matched variable, a value name x exported as n.k AS x is n.k) — SQL: frame_eval for s1, evalProj_witems for the hand-over frame, eval_ritem over its columns (colVals_idx: distinct column names; the distinctness of the generated names n0 / n<j> / i<j> is CHECKED by S3.Query.wf, not proved), evalQuery_cte1 for the nested frame; Cypher: evalProjection_plain twice (the part after a WITH sees the exported names only), eval_ritemC via lookup_zip_idx; then rows_agree of S1. Stage S3b (a MATCH after the WITH; ofCyWithHop_sound; third branch of tr7_some): tr_sound_S3b / tr_total_S3b — for every GraphOK2 graph and every query of the stage the rows are EQUAL as lists. Proof (Proofs/C01WithHop.lean): SQL — handover_eval for s0, frameW0 (the step frame Ch.stepFrame 0 over the one-column frame, via chain_from / joinOnE_ben / stepKinds_ben of the chain stage, no guard because the MATCH has no earlier relationship), final_select; Cypher — evalParts_with, clause_from_bound (matchPart with the start node already bound, then matchSteps_chain from the zero-hop chain [n]), eval_itemCCh over the bindings; both enumerate, node by node, the extensions ext of the chain stage, so the row lists coincide (itemCh_toR for the values). Stage S1o (ORDER BY n.k; tr8F = S1o where the query has that reading, else tr7F; tr8_some; ofCyOrder_sound; keyOK_of_check): tr_sound_S1o — for every GraphOK graph with KeyOK k g.nodes and every query of the stage: if the statement yields a table and Cy.eval (Quirks.none) answers, the client rows are EQUAL as lists; tr_total_S1o — never an SQL run-time / type error, and Cy.eval refuses only with nondeterministic-skip/limit-inside-ties. Proof (Proofs/C01Order.lean): sortKeysLe_prop — on scalar key values that do not pair a boolean with a number openCypher's sort-key comparison IS the jsonb comparison of the statement (16 value-kind cases); both sides are then the SAME stable sort (sortBy (propLe k asc)) of the kept nodes (sortBy_map_mem), SQL: orderKeys_prop / keysComparable_props / cutRows, Cypher: keyRows_prop / cutKeyed_ok. The deviation itself (a boolean meeting a number, arrays, objects) stays a known finding. Stage S1d (RETURN DISTINCT; tr9F = S1d where the query has that reading, else tr8F; tr9_some; ofCyDistinct_sound; keysScalar_of_check): tr_sound_S1d — for every GraphOK graph with KeysScalar and every query of the stage: if the statement yields a table and Cy.eval answers, the client rows are EQUAL as lists; tr_total_S1d — never an SQL run-time / type error and Cy.eval always answers. Proof (Proofs/C01Distinct.lean): Sql.dedupRows and Cy.dedupBy are the same scan dedupG (definitional); vSame_item — on the values of one item for two nodes SQL's `is not distinct from` (vSame: node composites compare by id / kind ids / properties, the ids being unique; jsonb scalars by jsonCmp) and openCypher's equivalence (cEquiv) give the same Boolean (vSame_prop: 16 value-kind cases incl. missing = missing; jsonCmp_refl for the composite); dedupG_map transports the scan through the row construction on both sides, so both keep the rows of the SAME nodes distinctNodes; then rows_agree of S1. Stage S2x (tr10F = S2x where the query has that reading, else tr9F; tr10_some; ofCyCross_sound; crossScalar_of_check): tr_sound_S2x — for every GraphOK2 graph with CrossScalar, every query of the stage, both join orders, pruned or not: Cy.eval answers and, if the statement yields a table, the client rows are a PERMUTATION of the reference rows; tr_noerr_S2x. Proof (Proofs/C01Cross.lean): Cypher — clause_hopG / cy_sideG: the MATCH of stage S2b with an ARBITRARY WHERE whose truth on every match is a given Boolean function; cross_hop: the conjunct x.k = y.k' evaluates to relT over the two property values; where_hopX over the mixed conjunct list. SQL — the statement is the S2b statement of base0 (the base query without its b-conjuncts) with one more WHERE term; cross_val: vCompare '=' / '<>' on the jsonb values of two scalar (or missing) properties IS relT eq / ne of their Cypher values (null when either is missing, numbers numerically, different types false); cross_ben / crossAnd_ben / rightUser_ben evaluate the term in either internal order (and_ben, predsAnd_ben of S2b for the b-conjuncts), edgeW_ben the relationship's constraints, whTest_ben the whole WHERE in either order; hop_from_ben and sql_hop_ben of S2b give the rows. Both sides are then (matches of base0) filtered by the SAME Boolean extraOk (okMatchesX_eq, okWhereX_split), and the matches of base0 in SQL order are a permutation of those in Cypher order (hopM_perm = the S2b argument). FRAGMENT PROVED = " + FRAGMENT_PROVED + ". NOT PROVED: C01_full (the statement for a total "
             "translator) stays a visible Prop; the design's S1 remainder (DISTINCT, ORDER BY on several keys / on an alias / outside KeyOK, ordered and string-function property comparisons), the rest of S2 (undirected hops, chains of more than three hops, "
             "WHERE conjuncts that read two variables, ORDER BY / SKIP over a hop, LIMIT over chains or counts), the rest of S3 (WITH after a relationship pattern, other MATCH shapes after the WITH than one outgoing hop from the carried node, WHERE / ORDER BY / aggregation on a WITH, several WITHs) and S4..S5 are SEARCHED only. "
             "FRAGMENT SEARCHED = " + FRAGMENT_SEARCHED + ". Confirmed deviations of the unchanged translator from openCypher (OPTIONAL MATCH as first clause, jsonb ordering under ORDER BY, "
             "self loops under undirected patterns, missing relationship uniqueness across pattern parts, text-form comparisons, SQL run-time cast errors, ...) are findings in "
             "known_findings.json, each with a replay in corpus/C01.",
-    "note": "No PostgreSQL server: SQL meaning is a trusted Lean transcription of the documentation. Bounded evaluation on small graphs is search, not proof; the proof covers stages S1, S1o, S1d, S1c, S2b, S2c, S2n, S2L, S3a and S3b only (S2L against the base query's rows, see text).",
+    "note": "No PostgreSQL server: SQL meaning is a trusted Lean transcription of the documentation. Bounded evaluation on small graphs is search, not proof; the proof covers stages S1, S1o, S1d, S1c, S2b, S2x, S2c, S2n, S2L, S3a and S3b only (S2L against the base query's rows, see text).",
 }
